@@ -53,6 +53,10 @@ func RenderNoisy(t *rapid.T, ds []ref.Directive) string {
 	for i, d := range ds {
 		last := i == len(ds)-1
 		needBlank := false
+		if d.Kind != ref.KTrx && rapid.IntRange(0, 15).Draw(t, "strayAnnotation") == 0 {
+			// the grammar accepts annotation lines in front of any directive (they attach to nothing)
+			b.WriteString(rapid.SampledFrom([]string{"@performance(USD)", "@performance()", "@accrue monthly 2020-01-01 2020-03-31 Assets:Accrual"}).Draw(t, "strayAnnotationV") + nl())
+		}
 		switch d.Kind {
 		case ref.KOpen:
 			fmt.Fprintf(&b, "%s%sopen%s%s%s", d.Date, sep(), sep(), d.Account, trail())
